@@ -161,4 +161,237 @@ theorem toSubtree_refines (pids : List Int) (r : Rose) (h : IsTree r pids) (rm :
   simp only [to_subtree, to_subtree.body, Py.seq, hfor, Py.bind, hp2]
   cases to_sub_topology (l2, pids) <;> simp [Py.finish]
 
+/-! ## `cut_tree(tree, enter=…)` : the closure `_enter` calls the USER's callback, an arbitrary stateful function -/
+section enter
+variable {σ T : Type} [Inhabited σ] [Inhabited T]
+
+/-- what the translated closure `_enter` computes on a node of the table: its state is (`removals`, the id column, the user callback's state) -/
+def cutEnterL (ue : σ → Int → Option T → σ × (T × Bool)) :
+    (List Int × List Int × σ) → Int → Option (T × Bool) → (List Int × List Int × σ) × (T × Bool) :=
+  fun s n parent =>
+    match parent with
+    | some (pv, true) => ((s.1 ++ [s.2.1.getD n.toNat 0], s.2.1, s.2.2), (pv, true))
+    | _ =>
+      let r := ue s.2.2 n (parent.map (·.1))
+      ((if r.2.2 then s.1 ++ [s.2.1.getD n.toNat 0] else s.1, s.2.1, r.1), r.2)
+
+/-- the model's `_enter` wrapper (`Sub.cutEnter`) for a STATEFUL user callback: state = (`removals`, user state) -/
+def cutEnterS (ue : σ → Int → Option T → σ × (T × Bool)) :
+    (List Int × σ) → Int → Option (T × Bool) → (List Int × σ) × (T × Bool) :=
+  fun s n parent =>
+    match parent with
+    | some (pv, true) => ((s.1 ++ [n], s.2), (pv, true))
+    | _ =>
+      let r := ue s.2 n (parent.map (·.1))
+      ((if r.2.2 then s.1 ++ [n] else s.1, r.1), r.2)
+
+theorem cutEnter_closure (ue : σ → Int → Option T → σ × (T × Bool)) (s : List Int × List Int × σ) (n : Int) (pv : Option (T × Bool))
+    (hn : 0 ≤ n ∧ n.toNat < s.2.1.length) :
+    cut_enter ue s n pv = some (cutEnterL ue s n pv) := by
+  have e : n = ((n.toNat : Nat) : Int) := by omega
+  have h0 : Py.idx s.2.1 n = some (s.2.1.getD n.toNat 0) := by
+    have h1 : Py.idx s.2.1 ((n.toNat : Nat) : Int) = s.2.1[n.toNat]? := Py.idx_nat _ _ hn.2
+    rw [← e] at h1
+    rw [h1]; simp [List.getD, hn.2]
+  match pv with
+  | some (p, true) =>
+    simp [cut_enter, cut_enter.body, Py.seq, Py.bind, h0, Py.finish, cutEnterL]
+  | some (p, false) =>
+    cases hr : (ue s.2.2 n (some p)).2.2 with
+    | true => simp [cut_enter, cut_enter.body, Py.seq, Py.bind, h0, Py.finish, cutEnterL, Py.skip, hr]; exact Prod.ext rfl hr.symm
+    | false => simp [cut_enter, cut_enter.body, Py.seq, Py.bind, Py.finish, cutEnterL, Py.skip, hr]; exact Prod.ext rfl hr.symm
+  | none =>
+    cases hr : (ue s.2.2 n none).2.2 with
+    | true => simp [cut_enter, cut_enter.body, Py.seq, Py.bind, h0, Py.finish, cutEnterL, Py.skip, hr]; exact Prod.ext rfl hr.symm
+    | false => simp [cut_enter, cut_enter.body, Py.seq, Py.bind, Py.finish, cutEnterL, Py.skip, hr]; exact Prod.ext rfl hr.symm
+
+/-- invariant of the closure state along the traversal: the id column is that of a `Tree` object, the removals collected so far are node ids -/
+def CutInv (n : Nat) (s : List Int × List Int × σ) : Prop := s.2.1 = rangeI n ∧ ∀ i ∈ s.1, 0 ≤ i ∧ i.toNat < n
+
+theorem rangeI_getD (n : Nat) (j : Int) (hj : 0 ≤ j ∧ j.toNat < n) : (rangeI n).getD j.toNat 0 = j := by
+  rw [List.getD_eq_getElem?_getD, rangeI_getElem? _ _ hj.2]
+  simp; omega
+
+theorem cutEnterL_step (ue : σ → Int → Option T → σ × (T × Bool)) (n : Nat) (s : List Int × List Int × σ) (j : Int) (pv : Option (T × Bool))
+    (hP : CutInv n s) (hj : 0 ≤ j ∧ j.toNat < n) :
+    cutEnterS ue (s.1, s.2.2) j pv = (((cutEnterL ue s j pv).1.1, (cutEnterL ue s j pv).1.2.2), (cutEnterL ue s j pv).2) ∧
+      CutInv n (cutEnterL ue s j pv).1 := by
+  have hg : s.2.1[j.toNat]?.getD 0 = j := by
+    have := rangeI_getD n j hj
+    rw [List.getD_eq_getElem?_getD] at this
+    rw [hP.1]; exact this
+  have hmem : ∀ i ∈ s.1 ++ [j], 0 ≤ i ∧ i.toNat < n := by
+    intro i hi
+    rcases List.mem_append.1 hi with hi | hi
+    · exact hP.2 i hi
+    · simp only [List.mem_singleton] at hi; subst hi; exact hj
+  match pv with
+  | some (p, true) => exact ⟨by simp [cutEnterS, cutEnterL, hg], hP.1, by simpa [cutEnterL, hg] using hmem⟩
+  | some (p, false) =>
+    cases hr : (ue s.2.2 j (some p)).2.2 with
+    | true => exact ⟨by simp [cutEnterS, cutEnterL, hg, hr], hP.1, by simpa [cutEnterL, hg, hr] using hmem⟩
+    | false => exact ⟨by simp [cutEnterS, cutEnterL, hr], hP.1, by simpa [cutEnterL, hr] using hP.2⟩
+  | none =>
+    cases hr : (ue s.2.2 j none).2.2 with
+    | true => exact ⟨by simp [cutEnterS, cutEnterL, hg, hr], hP.1, by simpa [cutEnterL, hg, hr] using hmem⟩
+    | false => exact ⟨by simp [cutEnterS, cutEnterL, hr], hP.1, by simpa [cutEnterL, hr] using hP.2⟩
+
+/-- **`cut_tree(tree, enter=…)` as translated, for EVERY user callback** (an arbitrary stateful function `ue`; `s0` is its state before the
+call): on every tree table the generated closure `_enter`, run by the generated traversal, collects exactly the removal list of the model's
+wrapper (`cutEnterS` = `Sub.cutEnter` with the callback's state threaded through) and leaves the callback in the model's final state; the
+generated `to_subtree` then returns the model's table for that removal list.  Nothing raises; fuel `2·|tree| + 1` suffices. -/
+theorem cutTreeEnter_refines (pids : List Int) (r : Rose) (h : IsTree r pids) (ue : σ → Int → Option T → σ × (T × Bool)) (s0 : σ) (F : Nat) :
+    cut_tree_enter ue (2 * r.size + F + 1) (rangeI pids.length) pids s0 =
+      (toSubtree pids (spec (cutEnterS ue) Sub.noLeave r none ([], s0)).1.1).map
+        (fun t => ((spec (cutEnterS ue) Sub.noLeave r none ([], s0)).1.2, ((Py.range (t.mapping.length : Int), t.newPid), t.mapping))) := by
+  have hin : ∀ j ∈ r.ids, 0 ≤ j ∧ j.toNat < pids.length := fun j hj => (isTree_mem h j).1 hj
+  have hP0 : CutInv pids.length (([] : List Int), rangeI pids.length, s0) := ⟨rfl, by simp⟩
+  have hcall := RefineClosures.traverse_closures_on (S := List Int × List Int × σ) (T := T × Bool) (K := Unit)
+    (CutInv pids.length) (fun j => 0 ≤ j ∧ j.toNat < pids.length)
+    (cut_enter ue) Py.noLeave (cutEnterL ue) Sub.noLeave
+    (fun s n pv hp hn => ⟨cutEnter_closure ue s n pv (by rw [hp.1]; simpa [rangeI] using hn), (cutEnterL_step ue _ s n pv hp hn).2⟩)
+    (fun s n ks hp _ => ⟨rfl, hp⟩)
+    (rangeI pids.length) pids r h.1 ([], rangeI pids.length, s0) hP0 hin F
+  obtain ⟨e2, p2⟩ := RefineClosures.spec_abs (S := List Int × List Int × σ) (S' := List Int × σ) (T := T × Bool) (K := Unit)
+    (fun s => (s.1, s.2.2)) (CutInv pids.length) (fun j => 0 ≤ j ∧ j.toNat < pids.length)
+    (cutEnterL ue) Sub.noLeave (cutEnterS ue) Sub.noLeave
+    (fun s n pv hp hn => cutEnterL_step ue _ s n pv hp hn)
+    (fun s n ks hp _ => ⟨rfl, hp⟩) r none ([], rangeI pids.length, s0) hP0 hin
+  rw [h.2.2.1] at hcall
+  simp only at e2
+  rw [e2]
+  generalize spec (cutEnterL ue) Sub.noLeave r none ([], rangeI pids.length, s0) = res at hcall p2
+  have hsub := toSubtree_refines pids r h res.1.1 p2.2 F
+  simp only [cut_tree_enter, cut_tree_enter.body, Py.seq, Py.bind, hcall, p2.1, hsub]
+  cases toSubtree pids res.1.1 <;> simp [Py.finish]
+
+/-- a user callback without state of its own: the stateful wrapper is the model's `Sub.cutEnter` -/
+theorem cutEnterS_pure (ue : Int → Option T → T × Bool) (s0 : σ) (r : Rose) (pv : Option (T × Bool)) (rem : List Int) :
+    spec (cutEnterS (fun (s : σ) n pv => (s, ue n pv))) Sub.noLeave r pv (rem, s0) =
+      (((spec (cutEnter ue) Sub.noLeave r pv rem).1, s0), (spec (cutEnter ue) Sub.noLeave r pv rem).2) := by
+  obtain ⟨e, p⟩ := RefineClosures.spec_abs (S := List Int × σ) (S' := List Int) (T := T × Bool) (K := Unit)
+    (fun s => s.1) (fun s => s.2 = s0) (fun _ => True)
+    (cutEnterS (fun (s : σ) n pv => (s, ue n pv))) Sub.noLeave (cutEnter ue) Sub.noLeave
+    (fun s n pv hp _ => by
+      match pv with
+      | some (p, true) => exact ⟨by simp [cutEnterS, cutEnter], by simpa [cutEnterS] using hp⟩
+      | some (p, false) => exact ⟨by simp [cutEnterS, cutEnter], by simpa [cutEnterS] using hp⟩
+      | none => exact ⟨by simp [cutEnterS, cutEnter], by simpa [cutEnterS] using hp⟩)
+    (fun s n ks hp _ => ⟨rfl, hp⟩) r pv (rem, s0) rfl (fun _ _ => trivial)
+  simp only at e p
+  rw [e]
+  exact Prod.ext (Prod.ext rfl p) rfl
+
+/-- **`cut_tree(tree, enter=…)` as translated = the model `Sub.cutTreeEnter`** (user callbacks as the model takes them: functions of the node
+and the parent's value), so `C06.cutEnter_removed` / `C06.toSubtree_kept` speak about the generated code -/
+theorem cutTreeEnter_refines_model (pids : List Int) (r : Rose) (h : IsTree r pids) (ue : Int → Option T → T × Bool) (s0 : σ) (F : Nat) :
+    cut_tree_enter (fun (s : σ) n pv => (s, ue n pv)) (2 * r.size + F + 1) (rangeI pids.length) pids s0 =
+      (cutTreeEnter pids ue).map (fun t => (s0, ((Py.range (t.mapping.length : Int), t.newPid), t.mapping))) := by
+  rw [cutTreeEnter_refines pids r h _ s0 F, cutEnterS_pure]
+  unfold cutTreeEnter
+  simp only
+  rw [run_tree h]
+
+end enter
+
+/-! ## `cut_tree(tree, leave=…)` -/
+section leave
+variable {σ K : Type} [Inhabited σ] [Inhabited K]
+
+/-- what the translated closure `_leave` computes on a node of the table -/
+def cutLeaveL (ul : σ → Int → List K → σ × (K × Bool)) :
+    (List Int × List Int × σ) → Int → List K → (List Int × List Int × σ) × K :=
+  fun s n ks =>
+    let r := ul s.2.2 n ks
+    ((if r.2.2 then s.1 ++ [s.2.1.getD n.toNat 0] else s.1, s.2.1, r.1), r.2.1)
+
+/-- the model's `_leave` wrapper (`Sub.cutLeave`) for a STATEFUL user callback -/
+def cutLeaveS (ul : σ → Int → List K → σ × (K × Bool)) : (List Int × σ) → Int → List K → (List Int × σ) × K :=
+  fun s n ks =>
+    let r := ul s.2 n ks
+    ((if r.2.2 then s.1 ++ [n] else s.1, r.1), r.2.1)
+
+theorem cutLeave_closure (ul : σ → Int → List K → σ × (K × Bool)) (s : List Int × List Int × σ) (n : Int) (ks : List K)
+    (hn : 0 ≤ n ∧ n.toNat < s.2.1.length) :
+    cut_leave ul s n ks = some (cutLeaveL ul s n ks) := by
+  have e : n = ((n.toNat : Nat) : Int) := by omega
+  have h0 : Py.idx s.2.1 n = some (s.2.1.getD n.toNat 0) := by
+    have h1 : Py.idx s.2.1 ((n.toNat : Nat) : Int) = s.2.1[n.toNat]? := Py.idx_nat _ _ hn.2
+    rw [← e] at h1
+    rw [h1]; simp [List.getD, hn.2]
+  cases hr : (ul s.2.2 n ks).2.2 with
+  | true => simp [cut_leave, cut_leave.body, Py.seq, Py.bind, h0, Py.finish, cutLeaveL, hr]
+  | false => simp [cut_leave, cut_leave.body, Py.seq, Py.bind, Py.finish, cutLeaveL, Py.skip, hr]
+
+theorem cutLeaveL_step (ul : σ → Int → List K → σ × (K × Bool)) (n : Nat) (s : List Int × List Int × σ) (j : Int) (ks : List K)
+    (hP : CutInv n s) (hj : 0 ≤ j ∧ j.toNat < n) :
+    cutLeaveS ul (s.1, s.2.2) j ks = (((cutLeaveL ul s j ks).1.1, (cutLeaveL ul s j ks).1.2.2), (cutLeaveL ul s j ks).2) ∧
+      CutInv n (cutLeaveL ul s j ks).1 := by
+  have hg : s.2.1[j.toNat]?.getD 0 = j := by
+    have := rangeI_getD n j hj
+    rw [List.getD_eq_getElem?_getD] at this
+    rw [hP.1]; exact this
+  have hmem : ∀ i ∈ s.1 ++ [j], 0 ≤ i ∧ i.toNat < n := by
+    intro i hi
+    rcases List.mem_append.1 hi with hi | hi
+    · exact hP.2 i hi
+    · simp only [List.mem_singleton] at hi; subst hi; exact hj
+  cases hr : (ul s.2.2 j ks).2.2 with
+  | true => exact ⟨by simp [cutLeaveS, cutLeaveL, hg, hr], hP.1, by simpa [cutLeaveL, hg, hr] using hmem⟩
+  | false => exact ⟨by simp [cutLeaveS, cutLeaveL, hr], hP.1, by simpa [cutLeaveL, hr] using hP.2⟩
+
+/-- **`cut_tree(tree, leave=…)` as translated, for EVERY user callback** (an arbitrary stateful function `ul` with state `s0` before the call):
+the generated closure `_leave`, run by the generated traversal, collects the removal list of the model's wrapper (`cutLeaveS` = `Sub.cutLeave`
+with the callback's state threaded through) and leaves the callback in the model's final state; the generated `to_subtree` returns the model's
+table for that list.  Nothing raises; fuel `2·|tree| + 1` suffices. -/
+theorem cutTreeLeave_refines (pids : List Int) (r : Rose) (h : IsTree r pids) (ul : σ → Int → List K → σ × (K × Bool)) (s0 : σ) (F : Nat) :
+    cut_tree_leave ul (2 * r.size + F + 1) (rangeI pids.length) pids s0 =
+      (toSubtree pids (spec Sub.noEnter (cutLeaveS ul) r none ([], s0)).1.1).map
+        (fun t => ((spec Sub.noEnter (cutLeaveS ul) r none ([], s0)).1.2, ((Py.range (t.mapping.length : Int), t.newPid), t.mapping))) := by
+  have hin : ∀ j ∈ r.ids, 0 ≤ j ∧ j.toNat < pids.length := fun j hj => (isTree_mem h j).1 hj
+  have hP0 : CutInv pids.length (([] : List Int), rangeI pids.length, s0) := ⟨rfl, by simp⟩
+  have hcall := RefineClosures.traverse_closures_on (S := List Int × List Int × σ) (T := Unit) (K := K)
+    (CutInv pids.length) (fun j => 0 ≤ j ∧ j.toNat < pids.length)
+    Py.noEnter (cut_leave ul) Sub.noEnter (cutLeaveL ul)
+    (fun s n pv hp _ => ⟨rfl, hp⟩)
+    (fun s n ks hp hn => ⟨cutLeave_closure ul s n ks (by rw [hp.1]; simpa [rangeI] using hn), (cutLeaveL_step ul _ s n ks hp hn).2⟩)
+    (rangeI pids.length) pids r h.1 ([], rangeI pids.length, s0) hP0 hin F
+  obtain ⟨e2, p2⟩ := RefineClosures.spec_abs (S := List Int × List Int × σ) (S' := List Int × σ) (T := Unit) (K := K)
+    (fun s => (s.1, s.2.2)) (CutInv pids.length) (fun j => 0 ≤ j ∧ j.toNat < pids.length)
+    Sub.noEnter (cutLeaveL ul) Sub.noEnter (cutLeaveS ul)
+    (fun s n pv hp _ => ⟨rfl, hp⟩)
+    (fun s n ks hp hn => cutLeaveL_step ul _ s n ks hp hn)
+    r none ([], rangeI pids.length, s0) hP0 hin
+  rw [h.2.2.1] at hcall
+  simp only at e2
+  rw [e2]
+  generalize spec Sub.noEnter (cutLeaveL ul) r none ([], rangeI pids.length, s0) = res at hcall p2
+  have hsub := toSubtree_refines pids r h res.1.1 p2.2 F
+  simp only [cut_tree_leave, cut_tree_leave.body, Py.seq, Py.bind, hcall, p2.1, hsub]
+  cases toSubtree pids res.1.1 <;> simp [Py.finish]
+
+theorem cutLeaveS_pure (ul : Int → List K → K × Bool) (s0 : σ) (r : Rose) (pv : Option Unit) (rem : List Int) :
+    spec Sub.noEnter (cutLeaveS (fun (s : σ) n ks => (s, ul n ks))) r pv (rem, s0) =
+      (((spec Sub.noEnter (cutLeave ul) r pv rem).1, s0), (spec Sub.noEnter (cutLeave ul) r pv rem).2) := by
+  obtain ⟨e, p⟩ := RefineClosures.spec_abs (S := List Int × σ) (S' := List Int) (T := Unit) (K := K)
+    (fun s => s.1) (fun s => s.2 = s0) (fun _ => True)
+    Sub.noEnter (cutLeaveS (fun (s : σ) n ks => (s, ul n ks))) Sub.noEnter (cutLeave ul)
+    (fun s n pv hp _ => ⟨rfl, hp⟩)
+    (fun s n ks hp _ => ⟨by simp [cutLeaveS, cutLeave], by simpa [cutLeaveS] using hp⟩)
+    r pv (rem, s0) rfl (fun _ _ => trivial)
+  simp only at e p
+  rw [e]
+  exact Prod.ext (Prod.ext rfl p) rfl
+
+/-- **`cut_tree(tree, leave=…)` as translated = the model `Sub.cutTreeLeave`** -/
+theorem cutTreeLeave_refines_model (pids : List Int) (r : Rose) (h : IsTree r pids) (ul : Int → List K → K × Bool) (s0 : σ) (F : Nat) :
+    cut_tree_leave (fun (s : σ) n ks => (s, ul n ks)) (2 * r.size + F + 1) (rangeI pids.length) pids s0 =
+      (cutTreeLeave pids ul).map (fun t => (s0, ((Py.range (t.mapping.length : Int), t.newPid), t.mapping))) := by
+  rw [cutTreeLeave_refines pids r h _ s0 F, cutLeaveS_pure]
+  unfold cutTreeLeave
+  simp only
+  rw [run_tree h]
+
+end leave
+
 end RefineCut
